@@ -5,4 +5,5 @@ def main (args : List String) : IO UInt32 := do
   | ["ring"] => Driver.RingC.main; return 0
   | ["kcp"] => Driver.KcpC.main; return 0
   | ["sess"] => Driver.SessC.main; return 0
+  | ["wait"] => Driver.WaitC.main; return 0
   | _ => IO.eprintln "usage: kcpdriver <component>"; return 2
